@@ -1538,11 +1538,10 @@ func registerReflectModel(e *Engine) {
 				}
 				rest = append(rest, pv)
 			}
-			var sl Value = &SliceV{}
-			if len(rest) > 0 {
-				o := st.newObject(nil, "variadic", &ArrayV{E: rest})
-				sl = &SliceV{Obj: o, Len: len(rest), Cap: len(rest)}
-			}
+			// reflect.Call makes the variadic slice itself (MakeSlice): empty but not nil when
+			// there is no trailing argument
+			o := st.newObject(nil, "variadic", &ArrayV{E: rest})
+			var sl Value = &SliceV{Obj: o, Len: len(rest), Cap: len(rest)}
 			plain = append(plain[:nfix:nfix], sl)
 		}
 		r = st.Call(fv, plain, nil)
